@@ -10,9 +10,17 @@ structure TdB (inp : RunInput) (s : Sys) : Prop where
   ser : inp.runner = .serial → s.nStarted = 0
   quiet : (s.rpc = .fin ∨ s.rpc = .halted) → s.halt = .none →
     ∀ w, s.workers w = .exited ∨ s.workers w = .notStarted
+  tdm : ∀ d, Ev.teardown d ∈ s.events → d ∈ s.tdown
 
 theorem init_tdB (inp : RunInput) : TdB inp (init inp) := by
-  refine ⟨fun _ => rfl, fun _ => rfl, fun _ _ => rfl, fun _ => rfl, fun _ _ _ => Or.inr rfl⟩
+  refine ⟨fun _ => rfl, fun _ => rfl, fun _ _ => rfl, fun _ => rfl, fun _ _ _ => Or.inr rfl, ?_⟩
+  intro d h; simp [init] at h
+
+/-- teardown reports: none is new, the list only grows -/
+theorem TdB.tdm_of {inp : RunInput} {s s' : Sys} (h : TdB inp s)
+    (he : ∀ d, Ev.teardown d ∈ s'.events → Ev.teardown d ∈ s.events) (ht : ∀ d ∈ s.tdown, d ∈ s'.tdown) :
+    ∀ d, Ev.teardown d ∈ s'.events → d ∈ s'.tdown :=
+  fun d hd => ht d (h.tdm d (he d hd))
 
 /-- a step that starts nothing, keeps the workers, and whose target is either not the end of the run, or an error
     end, or comes with its own proof of quiescence -/
@@ -20,8 +28,13 @@ theorem TdB.plain {inp : RunInput} {s s' : Sys} (h : TdB inp s) (p : Plain s s')
     (hn : s'.nStarted = s.nStarted)
     (hq : (s'.rpc = .fin ∨ s'.rpc = .halted) → s'.halt = .none →
       ∀ w, s'.workers w = .exited ∨ s'.workers w = .notStarted) : TdB inp s' := by
-  obtain ⟨⟨new, e, hns⟩, t⟩ := p
-  refine ⟨?_, ?_, ?_, ?_, hq⟩
+  obtain ⟨⟨new, e, hns⟩, t, tn⟩ := p
+  refine ⟨?_, ?_, ?_, ?_, hq, ?_⟩
+  rotate_left 4
+  · intro d hd; rw [t]
+    rcases tn d hd with a | a
+    · exact h.tdm d a
+    · exact a
   · intro hp; rw [t, e, startOrder_noStart inp hns]; exact h.shared hp
   · intro hp; rw [t]; exact h.proc hp
   · intro w hle; rw [hw]; exact h.ns w (hn ▸ hle)
@@ -38,33 +51,47 @@ theorem TdB.raise {inp : RunInput} {s : Sys} (h : TdB inp s) {hl : Halt} (hne : 
   h.plain (raise_plain s hl) rfl rfl (fun _ a => absurd a hne)
 
 theorem finishRun_plain (s : Sys) : Plain s (finishRun s) := by
-  refine ⟨⟨Ev.complete :: s.tdown.map Ev.teardown, by simp [finishRun], ?_⟩, rfl⟩
-  intro e he n w
-  simp only [List.mem_cons, List.mem_map] at he
-  rcases he with rfl | ⟨a, _, rfl⟩ <;> (intro h; cases h)
+  refine ⟨⟨Ev.complete :: s.tdown.map Ev.teardown, by simp [finishRun], ?_⟩, rfl, ?_⟩
+  · intro e he n w
+    simp only [List.mem_cons, List.mem_map] at he
+    rcases he with rfl | ⟨a, _, rfl⟩ <;> (intro h; cases h)
+  · intro d hd
+    have : (finishRun s).events = (Ev.complete :: s.tdown.map Ev.teardown) ++ s.events := by simp [finishRun]
+    rw [this] at hd
+    rcases List.mem_append.mp hd with a | a
+    · simp only [List.mem_cons, List.mem_map] at a
+      rcases a with a | ⟨x, hx, a⟩
+      · cases a
+      · cases a; exact Or.inr hx
+    · exact Or.inl a
 
 theorem TdB.finishRun {inp : RunInput} {s : Sys} (h : TdB inp s) (hr : s.rpc = .fin) : TdB inp (finishRun s) :=
   h.plain (finishRun_plain s) rfl rfl (fun _ hh => h.quiet (Or.inl hr) hh)
 
 theorem applySel_plain (inp : RunInput) (s : Sys) (n : Name) (nd : Node) (d : Sel) (r : RPC) :
     Plain s { applySel inp s n nd d with rpc := r } :=
-  ⟨⟨selEvents inp n nd d, applySel_events inp s n nd d, selEvents_noStart inp n nd d⟩, (applySel_outer inp s n nd d).1⟩
+  ⟨⟨selEvents inp n nd d, applySel_events inp s n nd d, selEvents_noStart inp n nd d⟩, (applySel_outer inp s n nd d).1,
+    tdn_of_noTd (applySel_events inp s n nd d) (selEvents_noTd inp n nd d)⟩
 
 theorem processResult_plain (inp : RunInput) (s : Sys) (n : Name) (nd : Node) :
     Plain s (processResult inp s n nd) :=
   ⟨⟨resEvents n (inp.outcome n), processResult_events inp s n nd, resEvents_noStart n _⟩,
-    (processResult_outer inp s n nd).1⟩
+    (processResult_outer inp s n nd).1, tdn_of_noTd (processResult_events inp s n nd) (resEvents_noTd n _)⟩
 
 theorem Plain.trans {a b c : Sys} (h1 : Plain a b) (h2 : Plain b c) : Plain a c := by
-  obtain ⟨⟨n1, e1, p1⟩, t1⟩ := h1
-  obtain ⟨⟨n2, e2, p2⟩, t2⟩ := h2
-  refine ⟨⟨n2 ++ n1, by rw [e2, e1, List.append_assoc], ?_⟩, t2.trans t1⟩
-  intro e he
-  rcases List.mem_append.mp he with a | a
-  · exact p2 e a
-  · exact p1 e a
+  obtain ⟨⟨n1, e1, p1⟩, t1, d1⟩ := h1
+  obtain ⟨⟨n2, e2, p2⟩, t2, d2⟩ := h2
+  refine ⟨⟨n2 ++ n1, by rw [e2, e1, List.append_assoc], ?_⟩, t2.trans t1, ?_⟩
+  · intro e he
+    rcases List.mem_append.mp he with a | a
+    · exact p2 e a
+    · exact p1 e a
+  · intro d hd
+    rcases d2 d hd with a | a
+    · exact d1 d a
+    · exact Or.inr (t1 ▸ a)
 
-theorem Plain.setRpc {s x : Sys} (h : Plain s x) (r : RPC) : Plain s { x with rpc := r } := ⟨h.ev, h.td⟩
+theorem Plain.setRpc {s x : Sys} (h : Plain s x) (r : RPC) : Plain s { x with rpc := r } := ⟨h.ev, h.td, h.tdn⟩
 
 /-- `execute_task` entered: start event, teardown registration -/
 theorem startTask_tdB {inp : RunInput} {s : Sys} (h : TdB inp s) (n w : Nat) :
@@ -76,6 +103,18 @@ theorem startTask_tdB {inp : RunInput} {s : Sys} (h : TdB inp s) (n w : Nat) :
     rw [e, startOrder_append, ← h.shared hp]
     by_cases ht : inp.hasTeardown n = true <;> simp [startTask, hp, ht, tdName]
   · intro hp; simp [startTask, hp, h.proc hp]
+
+theorem startTask_tdm {inp : RunInput} {s : Sys} (h : TdB inp s) (n w : Nat) :
+    ∀ d, Ev.teardown d ∈ (startTask inp s n w).events → d ∈ (startTask inp s n w).tdown := by
+  intro d hd
+  have hd' : Ev.teardown d ∈ s.events := by
+    simp only [startTask] at hd
+    split at hd <;> simpa using hd
+  have := h.tdm d hd'
+  simp only [startTask]
+  split
+  · exact List.mem_append.mpr (Or.inl this)
+  · exact this
 
 /-- `process_task_result` on a state `x` that differs plainly from `s`, then the runner moves on to `r` -/
 theorem TdB.result {inp : RunInput} {s : Sys} (h : TdB inp s) (x : Sys) (n : Name) (nd : Node) (r : RPC)
@@ -128,14 +167,16 @@ theorem serialStep_tdB {inp : RunInput} {s s' : Sys} {perm : List Name} (h : TdB
           -- execute_task: the start event and the registration
           have ha := applySel_outer inp s n nd .go
           have hb : TdB inp (applySel inp s n nd .go) :=
-            h.plain ⟨⟨selEvents inp n nd .go, applySel_events inp s n nd .go, selEvents_noStart inp n nd .go⟩, ha.1⟩
+            h.plain ⟨⟨selEvents inp n nd .go, applySel_events inp s n nd .go, selEvents_noStart inp n nd .go⟩, ha.1,
+              tdn_of_noTd (applySel_events inp s n nd .go) (selEvents_noTd inp n nd .go)⟩
               ha.2.2.2.1 ha.2.2.1 (by rw [ha.2.2.2.2.1, hr]; exact notEnd_of (by simp) (by simp))
           have hst := startTask_tdB hb n 0
           cases hd : selDecision inp n nd <;> simp only [hd] at hs <;> cases hs
           all_goals first
             | exact key _
             | exact h.raise (by simp)
-            | exact ⟨hst.1, hst.2, fun w hw => hb.ns w hw, fun x => hb.ser x, notEnd_of (by simp) (by simp)⟩
+            | exact ⟨hst.1, hst.2, fun w hw => hb.ns w hw, fun x => hb.ser x, notEnd_of (by simp) (by simp),
+                startTask_tdm hb n 0⟩
       | stopIter =>
         cases hs
         exact h.plain (Plain.of_same rfl rfl) rfl rfl (fun _ _ w => Or.inr (allNS w))
@@ -148,7 +189,8 @@ theorem serialStep_tdB {inp : RunInput} {s s' : Sys} {perm : List Name} (h : TdB
     | none => simp only [hn] at hs; cases hs; exact h.raise (by simp)
     | some nd =>
       simp only [hn] at hs; cases hs
-      exact h.result _ n nd _ ⟨⟨[Ev.fin n 0], rfl, fun e he a b => by simp at he; subst he; intro x; cases x⟩, rfl⟩
+      exact h.result _ n nd _ ⟨⟨[Ev.fin n 0], rfl, fun e he a b => by simp at he; subst he; intro x; cases x⟩, rfl,
+        fun d hd => Or.inl (by simpa using hd)⟩
         rfl rfl (by simp) (by simp)
   | fin => simp only [hr] at hs; cases hs; exact h.finishRun hr
   | gEntry _ _ => simp [hr] at hs
